@@ -50,6 +50,7 @@ struct Profile {
 	bool client_auth = false;                // server: request a client certificate; client: have one
 	int client_key = K_RSA;                  // client certificate type when client_auth
 	br_ssl_session_cache_lru *cache = nullptr;   // server only
+	int ossl_mfln = 0;                       // OpenSSL client only: max_fragment_length code to request (0 = none)
 };
 
 // byte FIFO with O(1) amortised pop from the front
@@ -543,6 +544,7 @@ struct OsslEndpoint : Endpoint {
 		SSL_set_bio(ssl, rbio, wbio);
 		if (client) {
 			if (!p.sni.empty()) SSL_set_tlsext_host_name(ssl, p.sni.c_str());
+			if (p.ossl_mfln) SSL_set_tlsext_max_fragment_length(ssl, (uint8_t)p.ossl_mfln);
 			SSL_set_connect_state(ssl);
 		} else SSL_set_accept_state(ssl);
 		progress();
